@@ -1554,6 +1554,11 @@ impl<'i, R: RuleType> ParserState<'i, R> {
     /// ```
     #[inline]
     pub fn stack_peek(self: Box<Self>) -> ParseResult<Box<Self>> {
+        // Once the call limit is reached the stack may be empty only because the calls that
+        // would have filled it were refused: fail (the limit is reported) instead of panicking.
+        if self.reached_call_limit() {
+            return Err(self);
+        }
         let string = self
             .stack
             .peek()
@@ -1587,6 +1592,10 @@ impl<'i, R: RuleType> ParserState<'i, R> {
     /// ```
     #[inline]
     pub fn stack_pop(mut self: Box<Self>) -> ParseResult<Box<Self>> {
+        // See `stack_peek`.
+        if self.reached_call_limit() {
+            return Err(self);
+        }
         let string = self
             .stack
             .pop()
